@@ -17,6 +17,9 @@ LINESEPS = ["\x0b", "\x0c", "\x1c", "\x1d", "\x1e", "\x85", "\u2028", "\u2029"]
 CODECS = ["latin-1", "utf-16", "ascii", "cp1252", "utf-8", "utf-8-sig", "iso8859-15", "cp437"]
 # words other dictionary dialects (OpenFOAM, YAML, INI) read as switches; for dictIO they are ordinary strings
 SWITCH_WORDS = ["yes", "no", "y", "n", "t", "f", "Yes", "NO", "enabled", "disabled", "nil", "NaN", "Inf", "undefined", "void", "~"]
+# words that look like pre-processor directives of this and related dictionary dialects
+DIRECTIVE_WORDS = ["#sinclude", "#includeEtc", "#includeIfPresent", "#calc", "#inputMode", "#remove", "#ifdef", "#else", "#define",
+                   "#inc", "#in", "#i", "##include", "#Include", "#INCLUDE", "# include", "#\tinclude", "#include"]
 _VOCAB: list[str] | None = None
 
 
@@ -196,7 +199,8 @@ def text(rng: random.Random, cls: str | None = None) -> str:
         w = word(rng, 5)
         return w + rng.choice(["", " "]) + rng.choice(LINESEPS) + rng.choice(["", " "]) + word(rng, 5)
     if cls == "vocab":
-        return rng.choice(source_vocab() + CODECS) if rng.random() < 0.7 else rng.choice(SWITCH_WORDS)
+        r = rng.random()
+        return rng.choice(source_vocab() + CODECS) if r < 0.6 else (rng.choice(SWITCH_WORDS) if r < 0.8 else rng.choice(DIRECTIVE_WORDS))
     if cls == "punct":
         return "".join(rng.choice("=#%&!?*@^~|+-_.") for _ in range(rng.randint(1, 4))) + word(rng, 3)
     raise ValueError(cls)
